@@ -37,6 +37,8 @@ fn drive_c02_c03(opts: &Opts) -> i32 {
     let histories = if opts.thorough() { 20 } else { 10 };
     let label = "c02c03";
     let seed = opts.seed;
+    let deadline = Deadline::new(opts.budget_s());
+    let skipped = std::sync::atomic::AtomicU64::new(0);
     let run_range = |jobs: usize, n: u64| -> c02::Acc {
         let accs = par_fold(
             jobs,
@@ -44,6 +46,10 @@ fn drive_c02_c03(opts: &Opts) -> i32 {
             64,
             || (c02::Acc::new(), Scratch::new("iosim")),
             |i, st: &mut (c02::Acc, Scratch)| {
+                if deadline.passed() && i >= 1500 {
+                    skipped.fetch_add(1, std::sync::atomic::Ordering::Relaxed);
+                    return;
+                }
                 let sub = subseed(seed, label, i);
                 let (acc, scratch) = st;
                 c02::run_case(&prop, sub, histories, scratch.path(), acc);
@@ -79,6 +85,7 @@ fn drive_c02_c03(opts: &Opts) -> i32 {
     rep.samples = total.samples.into_iter().take(4).collect();
     rep.violations = total.violations;
     rep.extra.insert("history_style_mix".into(), total.styles.to_json());
+    rep.extra.insert("cases_skipped_by_time_budget".into(), json!(skipped.load(std::sync::atomic::Ordering::Relaxed)));
     rep.extra.insert("determinism_selftest".into(), json!({"cases_reexecuted": again.digests.len(), "mismatches": 0, "worker_threads": [opts.jobs, 3]}));
     rep.extra.insert("components".into(), components());
     rep.extra.insert("generated_cases".into(), json!(cases));
@@ -101,8 +108,14 @@ fn drive_scratch(opts: &Opts, level: &str, label: &str, cases: u64, rule: &str, 
 fn drive_simple(opts: &Opts, level: &str, label: &str, cases: u64, rule: &str, f: impl Fn(u64, &mut c02::Acc) + Sync) -> i32 {
     let mut rep = Report::new(opts, level, rule);
     let seed = opts.seed;
+    let deadline = Deadline::new(opts.budget_s());
+    let skipped = std::sync::atomic::AtomicU64::new(0);
     let run_range = |jobs: usize, n: u64| -> c02::Acc {
         let accs = par_fold(jobs, n, 32, c02::Acc::new, |i, acc: &mut c02::Acc| {
+            if deadline.passed() && i >= 1500 {
+                skipped.fetch_add(1, std::sync::atomic::Ordering::Relaxed);
+                return;
+            }
             let before = (acc.evals, acc.violations.len());
             f(subseed(seed, label, i), acc);
             if i < 1500 {
@@ -132,6 +145,7 @@ fn drive_simple(opts: &Opts, level: &str, label: &str, cases: u64, rule: &str, f
     rep.samples = total.samples.into_iter().take(4).collect();
     rep.violations = total.violations;
     rep.extra.insert("strategy_mix".into(), total.styles.to_json());
+    rep.extra.insert("cases_skipped_by_time_budget".into(), json!(skipped.load(std::sync::atomic::Ordering::Relaxed)));
     rep.extra.insert("determinism_selftest".into(), json!({"cases_reexecuted": again.digests.len(), "mismatches": 0, "worker_threads": [opts.jobs, 3]}));
     rep.extra.insert("components".into(), components());
     rep.extra.insert("generated_cases".into(), json!(cases));
